@@ -42,7 +42,11 @@ ASSUMPTIONS = [
     "all tasks asking for the lock of one query use the same lock instance (theorem same_lock here over an abstract evicting cache; "
     "C16's pinned_never_evicted / lock_table_same_lock over the real TinyLFU model)",
     "executors issue finitely many nested queries (maxCalls, any bound) to keys of smaller rank (acyclic program)",
-    "DashSet::insert/remove/iteration under the outer read lock are modelled as atomic; an iteration is a snapshot taken when the guards are taken",
+    "DashSet::insert/remove/iteration under the outer read lock are modelled as atomic; an iteration is a snapshot taken when the guards are taken "
+    "— for the small tier this is no longer only assumed: guarded_iter_is_snapshot / guarded_iter_excludes_writers (RI LTS, Model/RelockIter.lean: "
+    "index-based next(), swap_remove, push) prove it for the iterator that owns the vector's read guard for its whole life, and "
+    "relocking_iter_misses_present_element(_30) / relocking_iter_yields_duplicate refute it for an iterator that takes the lock per next(); that the "
+    "real GuardedVecIterator is of the first kind is checked by the set-level histories (iteration beside removers of low-index elements)",
     "WK (finding F60): a task parked by tokio::task::yield_now is polled again only by a worker thread that is not inside a poll (the model "
     "lets ANY free worker take ANY queued task; tokio is stricter: the worker that owns the task's local queue / deferred list, or a "
     "stealing worker — so the model's deadlock needs every worker blocked, the real runtime hangs earlier); parking_lot::RwLock::write "
@@ -70,9 +74,14 @@ RULE = ("per shard (own seed): (f6) the forced 2-thread upgrade race on the real
         "corpus/C02-F60 at 0 (= current_thread), 1, 2, 4 workers, then generated 'wide fan-in with droppers' programs: 1-3 groups of a firewall (or a "
         "projection / normal node over it) with 16-40 callers of which 1-8 stop and 0-2 start reading it after the edit, the epoch after the edit "
         "requesting one steady caller per group and every dropper/adder (through a fresh root or directly) concurrently, on 0/1/2/3/4/8 workers; "
+        "every second generated case is the read-back sub-family: 3-6 groups on the small tier, droppers at the low indices of the edge vector that read a "
+        "slow helper of the firewall once the selector changed (their publications follow the helper's, i.e. meet the firewall's walk), 2-8 workers, and a "
+        "third round in the SAME epoch reading every caller back (sig C02:stale-readback-same-epoch); "
         "oracles: from-scratch values, overlap, executed-twice, OS-thread watchdog (sig C02:hang-wide-walk); (tset) sequential op sequences "
         "ins/rem/len/iter over a universe of 1..80 elements crossing the 32-element threshold, answered by implementation and model line by line, "
-        "and 2-8 thread histories checked by an independent linearizability oracle; (trace) parallel engine runs with the hook sink installed, every "
+        "and 2-8 thread histories checked by an independent linearizability oracle (every third history: small tier, 1-4 threads removing/re-inserting "
+        "low-index elements in a loop beside 1-3 threads iterating 6-30 times — an iteration must contain every element present during its whole interval, "
+        "exactly once: sigs C02:tset-iter-misses-present / C02:tset-iter-duplicate); (trace) parallel engine runs with the hook sink installed, every "
         "event replayed through the model (a non-enabled event = REJECT = correspondence failure); (engine) parallel engine runs on a multi-thread "
         "tokio runtime with 2-16 workers: random acyclic programs (normal+input nodes for value verdicts; firewall/projection programs for "
         "overlap/termination verdicts only), fan-in programs with 1-200 callers of one callee across the 32-caller threshold, wide layered programs with "
